@@ -95,6 +95,7 @@ func main() {
 		panicOK  = flag.Bool("panicok", false, "uncaught panics are not violations")
 		revMap   = flag.Bool("revmap", false, "iterate maps in reverse insertion order")
 		nomerge  = flag.Bool("nomerge", false, "disable function-level merging")
+		nodom    = flag.Bool("nodomains", false, "disable unary domain reasoning (every branch goes to the solver)")
 		slog     = flag.String("solverlog", "", "solver log prefix")
 		knownF   = flag.String("known", "", "comma separated open known-finding ids")
 		list     = flag.Bool("list", false, "list harnesses in the package")
@@ -122,7 +123,7 @@ func main() {
 	conf := Config{Unwind: *unwind, MaxSteps: *maxSteps, MaxDepth: 400, MaxPaths: *maxPaths, MaxAlloc: 1 << 22,
 		MaxIteTable: 4096, MaxConcretize: 300, Workers: *workers, SolverKind: *solver, TimeoutMs: *timeout,
 		Trace: *trace, Verbose: *verbose, MapOrderReversed: *revMap, NoMerge: *nomerge, Bounds: map[string]int{},
-		KnownOpen: map[string]bool{}, PanicOK: *panicOK, SolverLog: *slog}
+		KnownOpen: map[string]bool{}, PanicOK: *panicOK, SolverLog: *slog, NoDomains: *nodom}
 	if *enc == "int" {
 		conf.Enc = EncInt
 	}
@@ -342,7 +343,7 @@ func main() {
 		Encoding: *enc, Solver: *solver, Paths: eng.stats.Paths, PathStatus: eng.stats.PathsByStatus,
 		Queries: map[string]int{"feas_sat": eng.stats.FeasSat, "feas_unsat": eng.stats.FeasUnsat, "feas_unknown": eng.stats.FeasUnknown,
 			"assert_sat": eng.stats.AssertSat, "assert_unsat": eng.stats.AssertUnsat, "assert_unknown": eng.stats.AssertUnknown,
-			"assert_concrete": eng.stats.AssertConcrete, "merged_calls": eng.stats.Merged, "if_conversions": int(eng.ifconv.Load())},
+			"assert_concrete": eng.stats.AssertConcrete, "merged_calls": eng.stats.Merged, "if_conversions": int(eng.ifconv.Load()), "domain_decided": int(eng.domDecided.Load())},
 		Decisions: eng.stats.Decisions, Steps: eng.stats.Steps, SolverTimeS: eng.stats.SolverTime.Seconds(), WallS: wall, LoadS: loadS,
 		ReachSites: map[string]int{}, MaxAlloc: eng.stats.MaxAllocSeen}
 	seenV := map[string]int{}
@@ -411,6 +412,23 @@ func main() {
 		o.Stubs = append(o.Stubs, "stub:"+from.String()+"="+to.Name())
 	}
 	sort.Strings(o.Stubs)
+	if *verbose {
+		type kv2 struct {
+			k string
+			v int
+		}
+		var qs []kv2
+		for k, v := range eng.querySites {
+			qs = append(qs, kv2{k, v})
+		}
+		sort.Slice(qs, func(i, j int) bool { return qs[i].v > qs[j].v })
+		for i, f := range qs {
+			if i >= 15 {
+				break
+			}
+			fmt.Fprintf(os.Stderr, "[queries] %6d %s\n", f.v, f.k)
+		}
+	}
 	if *verbose {
 		type kv struct {
 			k string
